@@ -373,6 +373,12 @@ static void rbh_run_case(void)
       bufs[1].rb = tickit_renderbuffer_new(ARG(0), ARG(1)); p += 2;
     }
     else if(!strcmp(kw, "buf")) { cur = ARG(0) ? 1 : 0; p += 1; }
+    else if(!strcmp(kw, "cp") || !strcmp(kw, "mv")) {
+      TickitRect d = RECT(0), r = RECT(4);
+      if(kw[0] == 'c') tickit_renderbuffer_copyrect(rb, &d, &r); else tickit_renderbuffer_moverect(rb, &d, &r);
+      p += 8;
+    }
+    else if(!strcmp(kw, "blit")) tickit_renderbuffer_blit(rb, bufs[1 - cur].rb);
     else if(!strcmp(kw, "fl")) { rbh_tok(); rbh_flush_mock(rb, ARG(0), ARG(1), ARG(2), ARG(3), vh_tok[p + 4]); p += 5; }
     else if(!strcmp(kw, "flx")) { rbh_tok(); rbh_flush_xterm(rb, ARG(0), ARG(1)); p += 2; }
     else if(!strcmp(kw, "lct")) {
